@@ -69,8 +69,17 @@ func kind(r any) string {
 	return "doc-other"
 }
 
+// hangs counts watchdog expiries per operation; after three, further cases of that operation are
+// not run any more (each one would leave another spinning goroutine behind) and are reported as
+// "hang-skipped", which no model output or specification accepts.
+var hangs = map[string]int{}
+var curOp string
+
 // guard runs f under a watchdog; f returns the output string.
 func guard(f func() string) string {
+	if hangs[curOp] >= 3 {
+		return "hang-skipped"
+	}
 	done := make(chan string, 1)
 	go func() {
 		defer func() {
@@ -83,7 +92,8 @@ func guard(f func() string) string {
 	select {
 	case s := <-done:
 		return s
-	case <-time.After(5 * time.Second):
+	case <-time.After(3 * time.Second):
+		hangs[curOp]++
 		return "hang"
 	}
 }
@@ -146,6 +156,7 @@ func views(base []int, pre, n int, rs [][]int) string {
 
 func exec(in string) string {
 	f := strings.Fields(in)
+	curOp = f[0]
 	if f[0] == "S" {
 		i, _ := strconv.Atoi(f[1])
 		var ls [][]int
